@@ -88,6 +88,9 @@ def gen_var(rng, name, depth=0):
         s += " " + name
         if rng.random() < 0.15:
             s += "".join("[%d]" % rng.randint(1, 4) for _ in range(rng.choice([1, 1, 2])))
+        elif rng.random() < 0.06:
+            # an extent written as an expression: the rendering must denote the same number (grouping matters)
+            s += "[%s]" % rng.choice(["24/(2*3)", "9*(7/2)", "(2+1)*4", "24/2*3", "20-(4-1)", "2*(3+1)", "48/(8/2)", "7-(2+1)*2", "(6)", "2+3*2"])
     return re.sub(r"\s+", " ", s).strip(), native
 
 
